@@ -29,6 +29,13 @@ theorem beU_of_gt {w : Nat} {i : List β} (h : i.length < w) :
     beU w i = .incomplete (.size (w - i.length)) := by
   simp [beU, Nat.not_le.mpr h]
 
+theorem beU_cases (w : Nat) (i : List β) :
+    (w ≤ i.length ∧ beU w i = .ok (i.drop w) (beVal (i.take w))) ∨
+    (i.length < w ∧ beU w i = .incomplete (.size (w - i.length))) := by
+  by_cases h : w ≤ i.length
+  · exact .inl ⟨h, by simp [beU, h]⟩
+  · exact .inr ⟨by omega, by simp [beU, h]⟩
+
 theorem beVal_nil : beVal ([] : List β) = 0 := rfl
 
 theorem beVal_append_singleton (l : List β) (b : β) : beVal (l ++ [b]) = beVal l * 256 + toNat b := by
@@ -50,6 +57,21 @@ theorem foldl_be_lt (l : List β) (a : Nat) :
 theorem beVal_lt (l : List β) : beVal l < 256 ^ l.length := by
   have := foldl_be_lt l 0
   simpa [beVal] using this
+
+theorem foldl_be_acc (l : List β) (a : Nat) :
+    l.foldl (fun a b => a * 256 + toNat b) a = a * 256 ^ l.length + l.foldl (fun a b => a * 256 + toNat b) 0 := by
+  induction l generalizing a with
+  | nil => simp
+  | cons b l ih =>
+    simp only [List.foldl_cons, List.length_cons, Nat.pow_succ]
+    rw [ih (a * 256 + toNat b), ih (0 * 256 + toNat b)]
+    simp only [Nat.zero_mul, Nat.zero_add, Nat.add_mul, Nat.mul_assoc, Nat.add_assoc]
+    congr 2
+    rw [Nat.mul_comm 256]
+
+theorem beVal_append (a b : List β) : beVal (a ++ b) = beVal a * 256 ^ b.length + beVal b := by
+  simp only [beVal, List.foldl_append]
+  exact foldl_be_acc b _
 
 /-- Big-endian encoding of `n` on `w` bytes. -/
 def encBE (w n : Nat) : List β :=
@@ -81,8 +103,16 @@ end
 
 /-! ### closure properties -/
 
+/-- never panics and never answers `Err::Failure` (nothing in the parsers uses `cut`; the only
+    `Failure` of the crate is produced by `parse_record_nocopy` itself) -/
+def Clean (p : Parser β α) : Prop := ∀ i, p i ≠ .panic ∧ ∀ k, p i ≠ .failure k
+
 /-- never panics -/
 def NoPanic (p : Parser β α) : Prop := ∀ i, p i ≠ .panic
+
+theorem Clean.noPanic {p : Parser β α} (h : Clean p) : NoPanic p := fun i => (h i).1
+
+theorem Clean.noFailure {p : Parser β α} (h : Clean p) (i : List β) (k : ErrKind) : p i ≠ .failure k := (h i).2 k
 
 /-- the remainder of a successful parse is a suffix of the input -/
 def Suffix (p : Parser β α) : Prop := ∀ i r v, p i = .ok r v → ∃ c, i = c ++ r
@@ -93,91 +123,91 @@ def StableAt (p : Parser β α) (i : List β) : Prop := ∀ x, p (i ++ x) = (p i
 /-- once the answer is not `Incomplete`, appending bytes only extends the remainder -/
 def Stable (p : Parser β α) : Prop := ∀ i, (∀ n, p i ≠ .incomplete n) → StableAt p i
 
-theorem NoPanic.bind {p : Parser β α} {q : α → Parser β γ} (hp : NoPanic p) (hq : ∀ x, NoPanic (q x)) :
-    NoPanic (fun i => (p i).bind fun i1 x => q x i1) := by
+theorem Clean.bind {p : Parser β α} {q : α → Parser β γ} (hp : Clean p) (hq : ∀ x, Clean (q x)) :
+    Clean (fun i => (p i).bind fun i1 x => q x i1) := by
   intro i; have := hp i
   cases h : p i <;> simp_all [Res.bind]
   exact hq _ _
 
-theorem NoPanic.pure (v : α) : NoPanic (fun i : List β => Res.ok i v) := by intro i; simp
-theorem NoPanic.error (k : ErrKind) : NoPanic (fun _ : List β => (Res.error k : Res β α)) := by intro i; simp
-theorem NoPanic.take (n : Nat) : NoPanic (take n : Parser β (List β)) := by
+theorem Clean.pure (v : α) : Clean (fun i : List β => Res.ok i v) := by intro i; simp
+theorem Clean.error (k : ErrKind) : Clean (fun _ : List β => (Res.error k : Res β α)) := by intro i; simp
+theorem Clean.take (n : Nat) : Clean (take n : Parser β (List β)) := by
   intro i; unfold Tls.take; split <;> simp
-theorem NoPanic.beU [ByteLike β] (w : Nat) : NoPanic (beU w : Parser β Nat) := by
+theorem Clean.beU [ByteLike β] (w : Nat) : Clean (beU w : Parser β Nat) := by
   intro i; unfold Tls.beU; split <;> simp
-theorem NoPanic.ite {c : Prop} [Decidable c] {p q : Parser β α} (hp : NoPanic p) (hq : NoPanic q) :
-    NoPanic (fun i => if c then p i else q i) := by
+theorem Clean.ite {c : Prop} [Decidable c] {p q : Parser β α} (hp : Clean p) (hq : Clean q) :
+    Clean (fun i => if c then p i else q i) := by
   intro i; by_cases h : c <;> simp [h, hp i, hq i]
-theorem NoPanic.ite' {c : Prop} [Decidable c] {p q : Parser β α} (hp : NoPanic p) (hq : NoPanic q) :
-    NoPanic (if c then p else q) := by
+theorem Clean.ite' {c : Prop} [Decidable c] {p q : Parser β α} (hp : Clean p) (hq : Clean q) :
+    Clean (if c then p else q) := by
   by_cases h : c <;> simp [h, hp, hq]
-theorem NoPanic.lengthData {f : Parser β Nat} (hf : NoPanic f) : NoPanic (lengthData f) :=
-  NoPanic.bind hf (fun n => NoPanic.take n)
-theorem NoPanic.mapP {f : Parser β α} {g : α → γ} (hf : NoPanic f) : NoPanic (mapP f g) := by
+theorem Clean.lengthData {f : Parser β Nat} (hf : Clean f) : Clean (lengthData f) :=
+  Clean.bind hf (fun n => Clean.take n)
+theorem Clean.mapP {f : Parser β α} {g : α → γ} (hf : Clean f) : Clean (mapP f g) := by
   intro i; have := hf i; unfold Tls.mapP; cases h : f i <;> simp_all [Res.map]
-theorem NoPanic.mapParser {f : Parser β (List β)} {g : Parser β α} (hf : NoPanic f) (hg : NoPanic g) :
-    NoPanic (mapParser f g) := by
+theorem Clean.mapParser {f : Parser β (List β)} {g : Parser β α} (hf : Clean f) (hg : Clean g) :
+    Clean (mapParser f g) := by
   intro i; have := hf i; unfold Tls.mapParser
   cases h : f i <;> simp_all [Res.bind]
   rename_i r o; have := hg o
   cases h2 : g o <;> simp_all [Res.bind]
-theorem NoPanic.verify {f : Parser β α} {p : α → Bool} (hf : NoPanic f) : NoPanic (verify f p) := by
+theorem Clean.verify {f : Parser β α} {p : α → Bool} (hf : Clean f) : Clean (verify f p) := by
   intro i; have := hf i; unfold Tls.verify
   cases h : f i <;> simp_all [Res.bind]
   split <;> simp
-theorem NoPanic.cond {b : Bool} {f : Parser β α} (hf : NoPanic f) : NoPanic (cond b f) := by
+theorem Clean.cond {b : Bool} {f : Parser β α} (hf : Clean f) : Clean (cond b f) := by
   intro i; have := hf i; unfold Tls.cond
   cases b <;> simp
   cases h : f i <;> simp_all [Res.map]
-theorem NoPanic.opt {f : Parser β α} (hf : NoPanic f) : NoPanic (opt f) := by
+theorem Clean.opt {f : Parser β α} (hf : Clean f) : Clean (opt f) := by
   intro i; have := hf i; unfold Tls.opt
   cases h : f i <;> simp_all
-theorem NoPanic.complete {f : Parser β α} (hf : NoPanic f) : NoPanic (complete f) := by
+theorem Clean.complete {f : Parser β α} (hf : Clean f) : Clean (complete f) := by
   intro i; have := hf i; unfold Tls.complete
   cases h : f i <;> simp_all
-theorem NoPanic.alt {a b : Parser β α} (ha : NoPanic a) (hb : NoPanic b) : NoPanic (alt a b) := by
+theorem Clean.alt {a b : Parser β α} (ha : Clean a) (hb : Clean b) : Clean (alt a b) := by
   intro i; have := ha i; have := hb i; unfold Tls.alt
   cases h : a i <;> simp_all
-theorem NoPanic.pair {a : Parser β α} {b : Parser β γ} (ha : NoPanic a) (hb : NoPanic b) : NoPanic (pair a b) := by
+theorem Clean.pair {a : Parser β α} {b : Parser β γ} (ha : Clean a) (hb : Clean b) : Clean (pair a b) := by
   unfold Tls.pair
-  exact NoPanic.bind ha fun x => NoPanic.bind hb fun y => NoPanic.pure _
-theorem NoPanic.tag [ByteLike β] (t : List Nat) : NoPanic (tag t : Parser β Unit) := by
+  exact Clean.bind ha fun x => Clean.bind hb fun y => Clean.pure _
+theorem Clean.tag [ByteLike β] (t : List Nat) : Clean (tag t : Parser β Unit) := by
   intro i; unfold Tls.tag; split
   · simp
   · split <;> simp
 
-theorem NoPanic.many0 {f : Parser β α} (hf : NoPanic f) : NoPanic (many0 f) := by
+theorem Clean.many0 {f : Parser β α} (hf : Clean f) : Clean (many0 f) := by
   intro i
   induction i using many0.induct f with
   | case1 i k h => unfold Tls.many0; simp [h]
   | case2 i n h => unfold Tls.many0; simp [h]
-  | case3 i k h => unfold Tls.many0; simp [h]
-  | case4 i h => exact absurd h (hf i)
+  | case3 i k h => exact absurd h ((hf i).2 k)
+  | case4 i h => exact absurd h (hf i).1
   | case5 i i1 o h hlt ih =>
     unfold Tls.many0; simp only [h, hlt, dite_true]
     cases h2 : Tls.many0 f i1 <;> simp_all [Res.map]
   | case6 i i1 o h hlt => unfold Tls.many0; simp [h, hlt]
 
-theorem NoPanic.many1Loop {f : Parser β α} (hf : NoPanic f) : NoPanic (many1Loop f) := by
+theorem Clean.many1Loop {f : Parser β α} (hf : Clean f) : Clean (many1Loop f) := by
   intro i
   induction i using many1Loop.induct f with
   | case1 i k h => unfold Tls.many1Loop; simp [h]
   | case2 i n h => unfold Tls.many1Loop; simp [h]
-  | case3 i k h => unfold Tls.many1Loop; simp [h]
-  | case4 i h => exact absurd h (hf i)
+  | case3 i k h => exact absurd h ((hf i).2 k)
+  | case4 i h => exact absurd h (hf i).1
   | case5 i i1 o h hlt ih =>
     unfold Tls.many1Loop; simp only [h, hlt, dite_true]
     cases h2 : Tls.many1Loop f i1 <;> simp_all [Res.map]
   | case6 i i1 o h hlt => unfold Tls.many1Loop; simp [h, hlt]
 
-theorem NoPanic.many1 {f : Parser β α} (hf : NoPanic f) : NoPanic (many1 f) := by
+theorem Clean.many1 {f : Parser β α} (hf : Clean f) : Clean (many1 f) := by
   intro i; have := hf i; unfold Tls.many1
   cases h : f i <;> simp_all
   rename_i r o
-  have := NoPanic.many1Loop hf r
+  have := Clean.many1Loop hf r
   cases h2 : Tls.many1Loop f r <;> simp_all [Res.map]
 
-theorem NoPanic.countP {g : Parser β α} (hg : NoPanic g) (n : Nat) : NoPanic (countP g n) := by
+theorem Clean.countP {g : Parser β α} (hg : Clean g) (n : Nat) : Clean (countP g n) := by
   induction n with
   | zero => intro i; simp [Tls.countP]
   | succ n ih =>
@@ -186,9 +216,9 @@ theorem NoPanic.countP {g : Parser β α} (hg : NoPanic g) (n : Nat) : NoPanic (
     rename_i r o; have := ih r
     cases h2 : Tls.countP g n r <;> simp_all [Res.map]
 
-theorem NoPanic.lengthCount {f : Parser β Nat} {g : Parser β α} (hf : NoPanic f) (hg : NoPanic g) :
-    NoPanic (lengthCount f g) :=
-  NoPanic.bind hf fun n => NoPanic.countP hg n
+theorem Clean.lengthCount {f : Parser β Nat} {g : Parser β α} (hf : Clean f) (hg : Clean g) :
+    Clean (lengthCount f g) :=
+  Clean.bind hf fun n => Clean.countP hg n
 
 /-! ### never answers `Incomplete` -/
 
